@@ -446,6 +446,13 @@ let shapes : (string * (string * M.node list) list * G.custom list) list =
     "include-with-value", [ "p", [ print (var "w") ]; "main", [ text "a"; inc ~withs:(Some (M.EHash [ (lit_str "w", call "fn1" [ lit_int 1 ]) ])) (lit_str "p"); text "b" ] ], [ f1 ];
     "include-only-inner", [ "p", [ print (filt (lit_str "x") "sf0" []) ]; "main", [ text "a"; inc ~only:true (lit_str "p"); text "b" ] ], [ s0 ];
     "apply-filter-fails", [ "main", [ text "a"; M.NApply (bs "sf0", [], [ text "body" ]); text "b" ] ], [ s0 ];
+    (* a body that renders to nothing: the filter is applied all the same, and its failure is the render's *)
+    "apply-filter-fails-empty-body", [ "main", [ text "a"; M.NApply (bs "sf0", [], []); text "b" ] ], [ s0 ];
+    "apply-filter-fails-false-if", [ "main", [ text "a"; M.NApply (bs "sf0", [], [ ifn (var "nope") [ text "x" ] [] ]); text "b" ] ], [ s0 ];
+    "apply-filter-fails-empty-loop", [ "main", [ text "a"; M.NApply (bs "sf0", [], [ forv "i" (M.EArr []) [ text "x" ] ]); text "b" ] ], [ s0 ];
+    "apply-filter-fails-empty-print", [ "main", [ text "a"; M.NApply (bs "sf0", [], [ print (var "nope") ]); text "b" ] ], [ s0 ];
+    "apply-filter-fails-in-include-loop", [ "p", [ M.NApply (bs "sf0", [], []) ]; "main", [ text "a"; forv "i" (var "xs") [ inc (lit_str "p") ]; text "b" ] ], [ s0 ];
+    "apply-filter-fails-in-block", [ "base", [ text "<"; block "k" [ M.NApply (bs "sf0", [], []) ]; text ">" ]; "main", [ M.NExtends (lit_str "base") ] ], [ s0 ];
     "apply-body-fails", [ "main", [ text "a"; M.NApply (bs "upper", [], [ text "x"; print (call "fn1" [ lit_int 1 ]) ]); text "b" ] ], [ f1 ];
     "spaceless-body-fails", [ "main", [ text "a"; M.NSpaceless [ text "<a> <b>"; print (call "fn1" [ lit_int 1 ]) ]; text "b" ] ], [ f1 ];
     "test-in-elseif", [ "main", [ M.NIf ([ (M.ELit (M.LBool false), [ text "1" ]); (M.ETest (var "n", bs "st0", [], false), [ text "2" ]) ], Some [ text "3" ]) ] ], [ t0 ];
